@@ -77,6 +77,7 @@ READS = ("data", "underflow", "overflow", "n_entries", "raw_data", "edges")
 
 class HistMachine(Machine):
     name = "hist"
+    no_return_cap = 20  # seconds of wall time; a run takes milliseconds
     properties = (PROP,)
 
     def generate(self, seed, tier, idx):
@@ -125,6 +126,12 @@ class HistMachine(Machine):
                 what = read_bias if (read_bias and rng.random() < 0.5) else rng.choice(READS)
                 ops.append(["read", what])
             elif k == "rebin":
+                if rng.random() < 0.15 and len(cur) >= 3:
+                    # a rebin that kafe2 rejects (edges not ascending) somewhere in the history: contents must be those of the valid calls only
+                    bad = list(cur)
+                    bad[0], bad[-1] = bad[-1], bad[0]
+                    ops.append(["bad_rebin", bad])
+                    continue
                 cur = gen_edges(rng, maxbins)
                 ops.append(["rebin", cur])
             elif k == "set_bins":
@@ -211,6 +218,17 @@ class HistMachine(Machine):
                 res.bump("op_fill_scalar")
                 n_mut += 1
                 mut_pending = True
+            elif k == "bad_rebin":
+                if manual is not None or not any(b < a for a, b in zip(op[1], op[1][1:])):
+                    continue
+                try:
+                    h.rebin(list(op[1]))
+                except Exception:
+                    res.probe("rejected_rebin_in_history")
+                else:
+                    res.discard = "unsorted-rebin-was-accepted"  # (C19's question, not judged here)
+                    return
+                continue
             elif k == "rebin":
                 if manual is not None:
                     continue
